@@ -650,8 +650,13 @@ def _api_internal(ctx, p):
         cnt = after.count(armed["kind"])
         ctx.check(armed["hits"] == 1, "api.internal_requests_never_resent", detail={"what": what, "why": "the targeted write was never attempted", "kinds": after})
         # the faulted request itself is never written again; a *new* refresh after the next reconnect is a new request
-        exp = {"heartbeat": 1, "refresh": 2, "error_info": 1, "group_poll": 2}[what]   # group_poll: the poll, and the refresh after the reconnect
+        # refresh / group_poll: the faulted request, and the (new) refresh request of the reconnection; error_info: the faulted
+        # request, and a new one when the refreshed status still shows the error without its text
+        exp = {"heartbeat": 1, "refresh": 2, "error_info": 2, "group_poll": 2}[what]
         ctx.check(cnt == exp, "api.internal_requests_never_resent", detail={"what": what, "count": cnt, "kinds": after})
+        # a re-sent message keeps its header: no packet id appears twice among the requests of that kind
+        pids = [fr["pid"] for _, k, fr in con.requests[n0:] if k == armed["kind"]]
+        ctx.check(len(set(pids)) == len(pids), "api.internal_requests_never_resent", detail={"what": what, "packet_ids": pids, "why": "the faulted request was written again"})
         for lab in ("count_le_1_plus_retries", "never_at_or_after_expiry", "resent_first_on_next_connection", "no_resend_after_success",
                     "api.accumulating_commands_once", "api.idempotent_commands_resent_first", "connected_policy.one_second"):
             ctx.reach(lab)
